@@ -118,6 +118,16 @@ def family(ctx):
         for lba in (2, 3):
             add(B.gpt_disk(entries=cnt, entry_size=esz, entry_lba=lba, length=2300000),
                 'gpt header entries=%d size=%d lba=%d' % (cnt, esz, lba))
+    for fu in (1, 0, 2, (1 << 64) - 1):
+        add(B.gpt_disk(entry_lba=2, first_usable=fu, length=2300000), 'gpt header first_usable=%d' % fu)
+    # qcow2: the backing-file name (offset, length) and the cluster size are stream-supplied
+    for cb in (9, 16, 19, 20, 21, 63):
+        for bs in (1023, 65536, 523777, (1 << 32) - 1):
+            for bo in (512, 104):
+                d = B.qcow2(backing_offset=bo, backing_size=bs, cluster_bits=cb, length=512).data
+                add(B.Image('qcow2', d + body[:2300000 - 512], bounds=[8, 16, 20, 24, 104, 512, bo,
+                                                                       bo + 1023, bo + 65536, bo + 524288]),
+                    'backing name at %d size=%d cluster_bits=%d' % (bo, bs, cb))
     # valid images of every format
     for im in F.wellformed(seed, full):
         add(im, 'valid ' + im.name)
